@@ -24,13 +24,13 @@ for prop in props:
     out.append('')
 inv = '\n'.join(out)
 
-rows = ['| seeded change | what it breaks (one line) | needs | caught by (quick tier) | round-2 baseline |', '|---|---|---|---|---|']
+rows = ['| seeded change | what it breaks (one line) | needs | caught by (quick tier) | baseline before the round's extensions |', '|---|---|---|---|---|']
 for d in sorted(glob.glob(os.path.join(VERIF, 'seeded', 'C*-*m*'))):
     m = json.load(open(os.path.join(d, 'meta.json')))
     what = (m.get('what_changed') or '').split('. ')[0][:170].replace('|', '/').replace('\n', ' ')
     needs = (m.get('needs_to_manifest') or '')[:110].replace('|', '/').replace('\n', ' ')
     by = ', '.join(m['detected_by'][:3]) if m['detected'] else '**missed**'
-    b = m.get('baseline_before_round2_extensions')
+    b = m.get('baseline_before_round2_extensions') or m.get('baseline_before_round3_extensions')
     rows.append('| %s | %s | %s | %s | %s |' % (m['id'], what, needs, by, '' if not b else ('caught' if b['detected'] else 'missed')))
 tbl = '\n'.join(rows)
 
